@@ -233,7 +233,7 @@ func randFut(r *rand.Rand, nsrc, depth int) *EProg {
 		case 6:
 			p = &EProg{K: "rec", Arg: sub(), Kk: &EK{C: conts[r.Intn(len(conts))]}}
 		default:
-			p = &EProg{K: "panic", Mode: []string{"panic", "ok", "err"}[r.Intn(3)], Pv: []string{"boom", "7", "errval"}[r.Intn(3)]}
+			p = &EProg{K: "panic", Mode: []string{"panic", "ok", "err"}[r.Intn(3)], Pv: []string{"s:boom", "i:7", "e:errval"}[r.Intn(3)]}
 		}
 		if assignFutNames(r, p) {
 			return p
